@@ -113,6 +113,29 @@ CHECKS = {
         note="Trusted: TLC; extraction copies the spectrum into a fresh contiguous buffer (a view would share the defect under test).",
         technique="TLA+ pointwise dataset model + TLC scenario enumeration + differential replay",
         ref="§4 C06", engine="tlc"),
+    "C17": dict(
+        text="Frame.tla: only the driver's own edits may change an object's fingerprint; a call never does, also when it raises "
+             "(ArgsImmutable). TLC enumerates all programs of two calls over ~45 public operations (accessor statistics/transforms, "
+             "selection with every method and list/ndarray/DataArray queries, partitions with wind/depth arrays, construction helpers "
+             "with keyword dictionaries, every writer); each is executed on the same objects in four world variants (both longitude "
+             "conventions for dataset and query, numpy- and dask-backed, spectra that are a strided view of a caller-owned buffer) with "
+             "every argument object fingerprinted deeply before and after each call; the recorded events are validated by FrameTrace.tla.",
+        note="Trusted: TLC; the fingerprint function (values, coords, attrs, encodings, dims, strides/chunks, lists/dicts recursively).",
+        technique="TLA+ frame conditions + TLC program enumeration + fingerprint trace validation",
+        ref="§4 C17", engine="tlc"),
+    "C18": dict(
+        text="Mechanisms.tla models, shaped like the code, where state survives between calls (the accessor object cached per "
+             "Dataset/DataArray and what SpecDataset binds at creation, the dd memo, the attribute table inserting on lookup, the "
+             "watershed's static work area) and TLC checks Fresh (observation = what a fresh object with the same contents gives) over "
+             "all interleavings; pre-repair mechanisms are kept as regression configurations that must still produce TLC's stale "
+             "history. Session.tla enumerates all histories of accesses, other calls, in-place edits of efth / dir, unknown statistic "
+             "names and partition/reader calls on other objects; each is replayed on a Dataset and a DataArray and the final "
+             "observation compared with a fresh object evaluated in a pristine child process; H1 traces of interleaved shapes check the "
+             "static work area per call.",
+        note="Trusted: TLC; fresh values come from a forked child of a process that only imported the library. Defect found and repaired: "
+             "Dataset accessor bound to a snapshot of efth; dd memo.",
+        technique="TLA+ mechanism model refining the session spec + TLC interleavings + history replay against fresh objects",
+        ref="§4 C18", engine="tlc"),
 }
 
 NOT_YET = "check not yet built in this round (see DESIGN.md §4 for the planned TLA+ model); not claimed"
